@@ -166,6 +166,16 @@ fn angle_strat() -> BoxedStrategy<f64> {
     ]
     .boxed()
 }
+/// log10 of a scale magnitude: log-uniform over 1e-3..1e3, exactly one, and one plus or minus 10^-j (a transform that
+/// is rigid to within a tolerance but not exactly: where a shortcut keyed on "the axes are normalised" would fire)
+fn sexp_strat() -> BoxedStrategy<f64> {
+    prop_oneof![
+        8 => -3.0f64..3.0,
+        1 => Just(0.0f64),
+        3 => (2.0f64..7.5, any::<bool>()).prop_map(|(j, neg)| (1.0 + 10f64.powf(-j) * if neg { -1.0 } else { 1.0 }).log10()),
+    ]
+    .boxed()
+}
 /// translations: ordinary, spread over the exponent range, +-0
 fn tr_strat() -> BoxedStrategy<f64> {
     prop_oneof![
@@ -339,7 +349,7 @@ macro_rules! family {
             }
 
             pub fn strat_compose3(with_source: bool) -> BoxedStrategy<Vec<u64>> {
-                (0u64..8, (-3.0f64..3.0, -3.0f64..3.0, -3.0f64..3.0), quat_strat(), (tr_strat(), tr_strat(), tr_strat()), 0u64..2)
+                (0u64..8, (sexp_strat(), sexp_strat(), sexp_strat()), quat_strat(), (tr_strat(), tr_strat(), tr_strat()), 0u64..2)
                     .prop_map(move |(sp, e, q, tr, src)| {
                         let mut w = vec![sp, e.0.to_bits(), e.1.to_bits(), e.2.to_bits(), q.0, q.1.to_bits(), q.2.to_bits(), q.3.to_bits(), q.4.to_bits(), tr.0.to_bits(), tr.1.to_bits(), tr.2.to_bits()];
                         if with_source {
@@ -441,7 +451,7 @@ macro_rules! family {
             }
 
             pub fn strat_compose2(with_source: bool) -> BoxedStrategy<Vec<u64>> {
-                (0u64..4, -3.0f64..3.0, -3.0f64..3.0, angle_strat(), tr_strat(), tr_strat(), 0u64..2)
+                (0u64..4, sexp_strat(), sexp_strat(), angle_strat(), tr_strat(), tr_strat(), 0u64..2)
                     .prop_map(move |(sp, e0, e1, a, tx, ty, src)| {
                         let mut w = vec![sp, e0.to_bits(), e1.to_bits(), a.to_bits(), tx.to_bits(), ty.to_bits()];
                         if with_source {
